@@ -730,6 +730,16 @@ func (s *sharedEntryAttributes) tryLoadingDefault(ctx context.Context, path []st
 		return nil, fmt.Errorf("error trying to load defaults for %s: %v", strings.Join(path, "->"), err)
 	}
 
+	// A container without presence exists implicitly: the defaults below it are in effect even when nothing is
+	// configured in it. It is created (its defaults are loaded with it) so that the navigation can continue.
+	if cont := schema.GetSchema().GetContainer(); cont != nil && !cont.GetIsPresence() && len(cont.GetKeys()) == 0 && len(path) == len(s.Path())+1 {
+		name := path[len(path)-1]
+		if e, exists := s.childs.GetEntry(name); exists {
+			return e, nil
+		}
+		return newEntry(ctx, s, name, s.treeContext)
+	}
+
 	upd, err := utils.DefaultValueRetrieve(schema.GetSchema(), path, DefaultValuesPrio, DefaultsIntentName)
 	if err != nil {
 		return nil, err
